@@ -10,9 +10,10 @@ panic or 5xx), `Ledger/Generated/ErrTable.lean` (regenerated from the source by
 `tools/t3_errtable` on every check).  Each model is tied to the real decoders /
 router by the `vars`, `txbody`, `cursor` and `http` correspondence workloads.
 
-Where the unchanged code does fault (v1 `Script.ToCore`, v1 read handlers on store
-validation errors) the theorem is stated
-as `…_partial` excluding exactly that input class, next to a `…_counterexample`.
+Since the `fix:` commits 5483107 (v1 `Script.ToCore`), 2262951 (cursors), 8f6c072
+(`HandleCommonErrors`, v1 revert / count) and 99c51f7 (logs import) no modelled
+decoder faults and every (handler, client error) pair of the specification
+resolves to a 4xx: all theorems are stated in full, without exclusions.
 -/
 namespace Ledger.C38
 open Ledger.Api Ledger.Api.ErrTable Ledger.Generated.ErrTable
@@ -23,20 +24,15 @@ open Ledger.Api Ledger.Api.ErrTable Ledger.Generated.ErrTable
 theorem decodeVarsV2_never_faults (vars : Option JVal) (m : String) : decodeVarsV2 vars ≠ .fault m :=
   Res.ofDec_ne_fault _ _
 
-/-- v1 (`Script.ToCore`): the decoder faults exactly on a `vars` object holding a
-    number, boolean or array member — every other JSON value is safe. -/
-theorem decodeVarsV1_partial (vars : Option JVal)
-    (h : ∀ kvs, vars = some (.obj kvs) → ∀ kv ∈ mapOfList kvs, v1Safe kv.2 = true) (m : String) :
-    decodeVarsV1 vars ≠ .fault m := by
-  intro hf
-  obtain ⟨kvs, hk, kv, hmem, hbad⟩ := (decodeVarsV1_fault_iff vars).1 ⟨m, hf⟩
-  have := h kvs hk kv hmem
-  simp [this] at hbad
+/-- v1 (`Script.ToCore`): no JSON value of `vars` makes the decoder fault (a number,
+    boolean or array variable is answered 400 VALIDATION; before 5483107 it panicked). -/
+theorem decodeVarsV1_never_faults (vars : Option JVal) (m : String) : decodeVarsV1 vars ≠ .fault m :=
+  decodeVarsV1_ne_fault vars m
 
-/-- `{"vars": {"x": 1}}` panics in the real `Script.ToCore` (→ HTTP 500). -/
-theorem decodeVarsV1_counterexample :
-    ∃ m, decodeVarsV1 (some (.obj [("x", JVal.int 1)])) = .fault m :=
-  (decodeVarsV1_fault_iff _).2 ⟨_, rfl, ("x", JVal.int 1), by simp [mapOfList, mapInsert], rfl⟩
+/-- The former panic input is a plain client error. -/
+theorem decodeVarsV1_number_variable :
+    decodeVarsV1 (some (.obj [("x", JVal.int 1)])) = .clientError "VALIDATION" := by
+  simp [decodeVarsV1, mapOfList, mapInsert, varsV1Loop, combineV1, varV1, JVal.int, v1NonStringScalar]
 
 /-- The machine side (`NewValueFromString`, `ParseVariablesJSON`) never faults. -/
 theorem setVars_never_faults (decl : List (String × VarType)) (vars : VarMap) (m : String) :
@@ -49,10 +45,9 @@ theorem createV2_never_faults (parseTime : String → Option String) (queryForce
     (m : String) : createV2 parseTime queryForce body ≠ .fault m :=
   createV2_ne_fault parseTime queryForce body m
 
-/-- v1 create transaction: the only faults are those of the `vars` decoder. -/
-theorem createV1_partial (parseTime : String → Option String) (body : JVal) (m : String)
-    (h : createV1 parseTime body = .fault m) : ∃ vars, decodeVarsV1 vars = .fault m :=
-  createV1_fault_from_vars parseTime body m h
+theorem createV1_never_faults (parseTime : String → Option String) (body : JVal) (m : String) :
+    createV1 parseTime body ≠ .fault m :=
+  createV1_ne_fault parseTime body m
 
 theorem revertBodyV2_never_faults (body : Option JVal) (m : String) : revertBodyV2 body ≠ .fault m :=
   revertBodyV2_ne_fault body m
@@ -105,26 +100,10 @@ theorem clientError_is_4xx :
     ∀ e ∈ entries, e.err ∈ clientErrors → actIs4xxOrDelegates e.act = true := by
   decide +kernel
 
-/-- The (handler, error) pairs of the specification that the unchanged code answers
-    with a 500: v1 read handlers and the v2 single-resource reads route the store's
-    validation errors to `HandleCommonErrors`; v1 revert routes idempotency errors there too. -/
-def knownBadPairs : List (Nat × Nat) :=
-  pairs [F.«v1.revertTransaction»] [E.ErrIdempotencyKeyConflict, E.ErrInvalidIdempotencyInput, E.ErrSchemaValidationError] ++
-  pairs [F.«v1.listAccounts»] [E.ErrInvalidQuery, E.ErrNotPaginatedField] ++
-  pairs [F.«v1.getBalances@direct», F.«v1.getLogs@direct», F.«v1.listTransactions@direct»] listErrs ++
-  pairs [F.«v1.countTransactions@direct», F.«v1.getBalancesAggregated@direct»] readErrs ++
-  pairs [F.«v1.getAccount», F.«v2.readAccount», F.«v1.readTransaction», F.«v2.readTransaction»] readErrs
-
-/-- Every other pair of the specification is answered with a 4xx, following the
-    delegation chain of the regenerated table. -/
-theorem handlers_answer_client_errors_4xx_partial :
-    ∀ p ∈ canReturn, p ∉ knownBadPairs → is4xx (statusOf p.1 p.2) = true := by
-  decide +kernel
-
-/-- The excluded class is exact: these pairs, and only these, do not resolve to a
-    4xx (they resolve to 500 INTERNAL). -/
-theorem handlers_answer_client_errors_counterexample :
-    badPairs = knownBadPairs ∧ ∀ p ∈ knownBadPairs, statusOf p.1 p.2 = 500 := by
+/-- Every (handler, typed client error) pair of the specification is answered with a
+    4xx, following the delegation chain of the table regenerated from the source. -/
+theorem handlers_answer_client_errors_4xx :
+    ∀ p ∈ canReturn, is4xx (statusOf p.1 p.2) = true := by
   decide +kernel
 
 /-- Non-vacuity: a concrete well-formed v2 request decodes to a controller call. -/
@@ -134,6 +113,6 @@ example : (createV2 (fun _ => none) false
   decide +kernel
 
 example : statusOf F.«v2.createTransaction» E.ErrIdempotencyKeyConflict = 409 := by decide +kernel
-example : statusOf F.«v1.listTransactions@direct» E.ErrInvalidQuery = 500 := by decide +kernel
+example : statusOf F.«v1.listTransactions@direct» E.ErrInvalidQuery = 400 := by decide +kernel
 
 end Ledger.C38
